@@ -198,6 +198,37 @@ def build(M):
                 work.append((s2, i + 1, acc + [v]))
         return out
 
+    def m_map_while(eng, st, fr, t, name, rname, args):
+        """map_while(f): the mapped values up to (not including) the first item for which f returns None - eager like map"""
+        items = items_of(eng, st, args[0])
+        if items is None:
+            return NotImplemented
+        out = []
+        work = [(st, 0, [])]
+        guard = 0
+        while work:
+            s, i, acc = work.pop()
+            guard += 1
+            if guard > 20000:
+                raise fdai.TooManyPaths("map_while")
+            if s.outcome is not None:
+                out.append((s, TOP))
+                continue
+            if i >= len(items):
+                out.append((s, mk(acc)))
+                continue
+            f2 = s.frames[-1]
+            clo = eng.operand(s, f2, t["args"][1])
+            for s2, v in eng.call_closure(s, f2, clo, [items[i]], t):
+                v = eng.resolve(s2, v)
+                if isinstance(v, EnumV) and v.name == "Some":
+                    work.append((s2, i + 1, acc + [v.fields.get(0, TOP)]))
+                elif isinstance(v, EnumV) and v.name == "None":
+                    out.append((s2, mk(acc)))
+                else:
+                    out.append((s2, s2.fresh(("map_while-undecided",))))
+        return out
+
     def m_filter(kind):
         def m(eng, st, fr, t, name, rname, args):
             items = items_of(eng, st, args[0])
@@ -397,7 +428,7 @@ def build(M):
         I + "rev": adaptor(a_rev), I + "enumerate": adaptor(a_enumerate), I + "zip": adaptor(a_zip), I + "chain": adaptor(a_chain),
         I + "skip": adaptor(a_skip), I + "take": adaptor(a_take), I + "copied": adaptor(a_copied), I + "cloned": adaptor(a_copied),
         I + "peekable_items": adaptor(a_identity), I + "fuse": adaptor(a_identity), I + "by_ref": None,
-        I + "map": m_map, I + "filter": m_filter("filter"), I + "skip_while": m_filter("skip_while"),
+        I + "map": m_map, I + "map_while": m_map_while, I + "filter": m_filter("filter"), I + "skip_while": m_filter("skip_while"),
         I + "fold": c_fold, I + "try_fold": c_try_fold, I + "sum": c_sum, I + "last": c_last,
     }
     table = {k: v for k, v in table.items() if v is not None}
